@@ -17,7 +17,7 @@ def run(tier, seed, t0):
     jobs = []
     for fl in ("optim", "debug"):
         for be in vbuild.BACKENDS:
-            for icls in range(7):
+            for icls in range(8):
                 for lgB in LGB + ([25] if icls in (0, 3) else []):      # beyond 2^24 (values that need more than 24 significant bits): classes whose exact product stays far below 2^63
                     r = reps if fl == "optim" else max(1, reps // 4)
                     jobs.append(Job("%s-%s-c%d-b%d" % (fl, be, icls, lgB), "drv_c10", fl, be,
